@@ -25,9 +25,11 @@
 (*                   fallback while a host label is consumed (a path wildcard does not      *)
 (*                   swallow host labels; repaired code); FALSE: always (before the fix:    *)
 (*                   a.com/* answered for a.com.evil.net/x)                                 *)
+(*   EmptyParam      TRUE: the parametric child also takes an EMPTY URL part ("a.com//y" for  *)
+(*                   "a.com/{p}/y", p = ""); FALSE: a parameter needs a non-empty segment   *)
 EXTENDS UrlPattern, TLC
 
-CONSTANTS ReuseOnLookup, FabricatedNorm, WildHostCheck
+CONSTANTS ReuseOnLookup, FabricatedNorm, WildHostCheck, EmptyParam
 
 PARAM  == "{}"
 NoNode == <<"-">>
@@ -85,7 +87,7 @@ LookupNode(t, parts) ==
             IN
             IF IsLit(pt.v) /\ HasNode(t, cc) /\ t.host[cc] = pt.h THEN
                 Go(i + 1, cc, params, fw2, fwU2, fwP2, Append(up, pt))
-            ELSE IF HasNode(t, pc) /\ t.host[pc] = pt.h THEN
+            ELSE IF HasNode(t, pc) /\ t.host[pc] = pt.h /\ (EmptyParam \/ pt.v # "") THEN
                 Go(i + 1, pc,
                    IF IsParam(pt.v) THEN params
                    ELSE {q \in params : q[1] # t.pname[cur]} \cup {<<t.pname[cur], pt.v>>},
